@@ -7,6 +7,8 @@ CONSTANTS
   Strangers = {0}
   EraseFirst = TRUE
   KeepOnResponse = FALSE
+  PeerIds = {1, 2}
+  AsyncIntoRequestRing = FALSE
 SPECIFICATION Spec
 INVARIANTS TypeOK CallbackAtMostOnce CallbackExactlyOnce ResponseWins TimeoutOtherwise StrangersIgnored RingHoldsWaiting
 CHECK_DEADLOCK FALSE
